@@ -761,6 +761,23 @@ class Translator:
         if isinstance(s, ast.For):
             if s.orelse:
                 raise Unsupported('for/else')
+            if isinstance(s.target, (ast.Tuple, ast.List)) and len(s.target.elts) == 2 \
+                    and all(isinstance(t_, ast.Name) for t_ in s.target.elts) and isinstance(s.iter, ast.Call) \
+                    and isinstance(s.iter.func, ast.Name) and s.iter.func.id == 'enumerate' and len(s.iter.args) == 1 \
+                    and not s.iter.keywords and isinstance(s.iter.args[0], (ast.Name, ast.Attribute)):
+                # for i, x in enumerate(seq)  ==  for i in range(len(seq)): x = seq[i]
+                seq = s.iter.args[0]
+                i_, x_ = s.target.elts
+                new = ast.For(
+                    target=ast.Name(id=i_.id, ctx=ast.Store()),
+                    iter=ast.Call(func=ast.Name(id='range', ctx=ast.Load()),
+                                  args=[ast.Call(func=ast.Name(id='len', ctx=ast.Load()), args=[seq], keywords=[])], keywords=[]),
+                    body=[ast.Assign(targets=[ast.Name(id=x_.id, ctx=ast.Store())],
+                                     value=ast.Subscript(value=seq, slice=ast.Name(id=i_.id, ctx=ast.Load()), ctx=ast.Load()))]
+                    + list(s.body), orelse=[])
+                ast.copy_location(new, s)
+                ast.fix_missing_locations(new)
+                return self.stmt(new)
             if not isinstance(s.target, ast.Name):
                 raise Unsupported('for with a structured target')
             it = s.iter
